@@ -21,6 +21,7 @@ Record row := {
 
 Record scase := {
   sc_world : world;                 (* text, numerals, eps, objects; no probes *)
+  sc_noobj : bool;                  (* wave 3: the Operators were built with problem_objects=None (no object table at all) *)
   sc_atoms : list atom;
   sc_fluents : list atom;
   sc_grid : list float;
@@ -80,11 +81,40 @@ Definition spec_answer (w : world) (d : sdomain) (p : probe) : option (obs bool)
   | None => None
   end.
 
-Definition judge_probe (w : world) (md : result mdomain) (sd : option sdomain) (p : probe) : verdict :=
-  let m_app := match md with Ok d => model_app w d p | Err _ => Raised end in
+(* ---------- wave 3: an Operator built WITHOUT an object table (problem_objects=None; not the same input as the empty table {}) ----------
+   The library's contract there (pddl_operator.py / grounded_precondition.py: "Did not receive the problem objects so cannot validate
+   the universal preconditions"): a universal condition counts as true, everything else is evaluated as usual.  Stated on the spec's
+   own formulas: the precondition with every forall replaced by the empty conjunction. *)
+Fixpoint erase_forall (f : form) : form :=
+  match f with
+  | FAnd l => FAnd (map erase_forall l)
+  | FOr l => FOr (map erase_forall l)
+  | FForall _ _ _ => FAnd []
+  | _ => f
+  end.
+
+Definition model_app_none (w : world) (d : mdomain) (p : probe) : obs bool :=
+  obs_of_result
+    (match dget (d_actions d) (p_action p) with
+     | None => Err EKey
+     | Some a => do ga <- ground_action d a (p_args p);
+                 is_applicable d (w_eps w) None ga (p_state p)
+     end).
+
+Definition spec_answer_none (w : world) (d : sdomain) (p : probe) : option (obs bool) :=
+  match find_action d (p_action p) with
+  | Some a =>
+      let phi := erase_forall (a_pre a) in
+      if fdiv0 (spec_tt d) [] (bind_args a (p_args p)) (p_state p) phi then Some Raised
+      else Some (Returned (holds (w_eps w) (spec_tt d) [] (bind_args a (p_args p)) (p_state p) phi))
+  | None => None
+  end.
+
+Definition judge_probe (noobj : bool) (w : world) (md : result mdomain) (sd : option sdomain) (p : probe) : verdict :=
+  let m_app := match md with Ok d => if noobj then model_app_none w d p else model_app w d p | Err _ => Raised end in
   let ok_app :=
     match sd with
-    | Some d => match spec_answer w d p with
+    | Some d => match (if noobj then spec_answer_none w d p else spec_answer w d p) with
                 | Some o => obs_eqb Bool.eqb o (p_app p)
                 | None => obs_raised (p_app p) end
     | None => obs_raised (p_app p)
@@ -96,7 +126,7 @@ Fixpoint judge_row_aux (c : scase) (md : result mdomain) (sd : option sdomain) (
   match ans with
   | [] => []
   | ch :: rest =>
-      judge_probe (sc_world c) md sd (mk_probe r (state_of c r n) (ans_obs ch))
+      judge_probe (sc_noobj c) (sc_world c) md sd (mk_probe r (state_of c r n) (ans_obs ch))
       :: judge_row_aux c md sd r rest (n + 1)%N
   end.
 
@@ -114,8 +144,10 @@ Definition explain (c : scase) :=
   map (fun r => (r_action r, r_args r,
                  map (fun n => let p := mk_probe r (state_of c r (N.of_nat n)) Raised in
                                (p_state p,
-                                match md with Ok d => model_app (sc_world c) d p | Err _ => Raised end,
-                                match sd with Some d => spec_answer (sc_world c) d p | None => None end))
+                                match md with Ok d => if sc_noobj c then model_app_none (sc_world c) d p else model_app (sc_world c) d p
+                                            | Err _ => Raised end,
+                                match sd with Some d => if sc_noobj c then spec_answer_none (sc_world c) d p else spec_answer (sc_world c) d p
+                                            | None => None end))
                      (seq 0 (String.length (r_ans r)))))
       (sc_rows c).
 
@@ -175,17 +207,36 @@ Definition explain_keyed (w : world) :=
                  match spec_domain w with Some d => spec_answer w d p | None => None end))
       (w_probes w).
 
-(* one shard may mix generated worlds (Corr.Core), keyed worlds and scope cases *)
-Inductive anycase := AW (w : world) | AS (c : scase) | AK (w : world).
+(* ---------- wave 3: generated worlds whose probes were answered by Operators built with problem_objects=None ---------- *)
+Definition noobj_probe_verdicts (w : world) (p : probe) : list verdict :=
+  [ judge_probe true w (model_domain w) (spec_domain w) p;
+    {| v_agree := true; v_ok := true; v_known := false |} ].          (* the successor is C03's; keeps the unit layout of judge_world *)
+
+Definition judge_noobj_world (w : world) : list verdict :=
+  match w_parsed w with
+  | Raised => [world_verdict w]
+  | Returned _ => world_verdict w :: flat_map (noobj_probe_verdicts w) (w_probes w)
+  end.
+
+Definition explain_noobj (w : world) :=
+  map (fun p => (p_action p, p_args p,
+                 match model_domain w with Ok d => model_app_none w d p | Err _ => Raised end,
+                 match spec_domain w with Some d => spec_answer_none w d p | None => None end))
+      (w_probes w).
+
+(* one shard may mix generated worlds (Corr.Core), keyed worlds, worlds without an object table and scope cases *)
+Inductive anycase := AW (w : world) | AS (c : scase) | AK (w : world) | AN (w : world).
 Definition run_any (l : list anycase) : string :=
   t2s (map verdict_char (flat_map (fun a => match a with
                                             | AW w => judge_world w
                                             | AS c => judge_scase c
                                             | AK w => judge_keyed_world w
+                                            | AN w => judge_noobj_world w
                                             end) l)).
 Definition explain_any (a : anycase) :=
   match a with
-  | AW w => (Some (Core.explain w), None, None)
-  | AS c => (None, Some (explain c), None)
-  | AK w => (None, None, Some (explain_keyed w))
+  | AW w => (Some (Core.explain w), None, None, None)
+  | AS c => (None, Some (explain c), None, None)
+  | AK w => (None, None, Some (explain_keyed w), None)
+  | AN w => (None, None, None, Some (explain_noobj w))
   end.
